@@ -11,6 +11,8 @@ import TdVerif.Model.C19Lazy
 import TdVerif.Lemmas.C19Lazy
 import TdVerif.Model.C19Ops
 import TdVerif.Gen.C19Shapes
+import TdVerif.Model.C19MemoHist
+import TdVerif.Lemmas.C19MemoHist
 
 namespace TdVerif.Props.C19
 open TdVerif.C19
@@ -375,6 +377,88 @@ current content, is the batched view of the current content -/
 theorem memo_sees_current_values (m : Memo) (i level : Nat) (h : MemoOK m) (tdNow : TD) :
     ((addBDMemo m i level).2).resolve tdNow = addBD i level tdNow := by
   rw [(memo_keyed_by_dim_and_level m i level h).1]; rfl
+
+/-! ## 6a. histories on a locked tensordict between vmap calls -/
+
+section MemoHist
+open TdVerif.C19.MH
+
+/-- **repeated vmap calls on the same locked tensordict observe its current values, whatever happened
+in between**: after ANY history of requests (at any node, in_dim, level), in-place writes, rebinding
+operations permitted under lock (`memmap_`, `names`, `batch_size`, unlock/set/lock of a free node) and
+cache drops, on ANY lock graph that covers the content graph wherever something is memoised, the
+wrapper a request returns is built for the requested (in_dim, level) and holds the tensors and metadata
+the nodes below it hold NOW -/
+theorem locked_history_sees_current (g : Graph) (hwf : g.WF) (hist : List Ev) (k i l : Nat) :
+    let s := (run g St.init hist).1
+    ∃ w, (step g s (.request k i l)).2 = some w ∧ w.inDim = i ∧ w.level = l ∧ w.Current g s k :=
+  request_current g _ (run_inv g hwf hist _ (inv_init g)) k i l
+
+/-- … in terms of values: what the function sees through the returned wrapper is the batched view of the
+tensordict assembled from the current generations -/
+theorem locked_history_view (g : Graph) (hwf : g.WF) (hist : List Ev) (k i l : Nat) (view : List Nat → TD) :
+    let s := (run g St.init hist).1
+    ∃ w, (step g s (.request k i l)).2 = some w ∧ w.resolve view = addBD i l (view (snapOf g k s.gens)) := by
+  obtain ⟨w, h1, h2, h3, h4⟩ := locked_history_sees_current g hwf hist k i l
+  refine ⟨w, h1, ?_⟩
+  unfold W.resolve
+  rw [h2, h3, h4]
+
+/-- the concrete topologies the check drives (container list + lock kinds): the executable test
+`wfCheck` the driver reports is enough for the theorem -/
+theorem locked_history_topo (t : Topo) (h : t.graph.wfCheck = true) (hist : List Ev) (k i l : Nat) :
+    let s := (run t.graph St.init hist).1
+    ∃ w, (step t.graph s (.request k i l)).2 = some w ∧ w.inDim = i ∧ w.level = l ∧ w.Current t.graph s k :=
+  locked_history_sees_current t.graph (wfCheck_sound _ h) hist k i l
+
+/-- root{n{d}, m}, locked from the root -/
+def topoTree : Topo := ⟨[none, some 0, some 1, some 0], [.own, .own, .own, .own]⟩
+/-- a lazy stack (node 0) over two members locked BEFORE stacking, each with a nested node -/
+def topoPreLocked : Topo := ⟨[none, some 0, some 0, some 1, some 2], [.byMembers, .own, .own, .own, .own]⟩
+/-- the same stack locked with `lock_()` -/
+def topoLazyLocked : Topo := ⟨[none, some 0, some 0, some 1, some 2], [.own, .own, .own, .own, .own]⟩
+
+example : topoTree.graph.wfCheck = true := by decide
+example : topoPreLocked.graph.wfCheck = true := by decide
+example : topoLazyLocked.graph.wfCheck = true := by decide
+-- lock ancestors: d → n → root; a member of a pre-locked stack has none
+example : topoTree.graph.lanc 2 = [2, 1, 0] := by decide
+example : topoPreLocked.graph.lanc 3 = [3, 1] := by decide
+example : topoLazyLocked.graph.lanc 3 = [3, 1, 0] := by decide
+
+/-- vmap on the root, `td["n"].memmap_()`, vmap on the root again: the second call gets a NEW wrapper
+(request 2 is not request 0's object), while an in-place write in between keeps the memoised one -/
+example : identityPattern (run topoTree.graph St.init
+    ([.request 0 0 1] ++ apiEvents topoTree.graph "inplace" 1 ++ [.request 0 0 1] ++ apiEvents topoTree.graph "memmap_" 1
+      ++ [.request 0 0 1, .request 3 0 1, .request 3 0 1])).2 = [0, 0, 2, 3, 3] := by decide
+
+/-- **counter-model (`_memmap_` clearing only the node's own cache)**: the lock parents keep their
+wrapper and the second vmap call computes on the abandoned tensors -/
+theorem erase_self_only_is_stale :
+    let g := topoTree.graph.eraseSelfOnly
+    let hist := [Ev.request 0 0 1] ++ apiEvents g "memmap_" 1
+    let s := (run g St.init hist).1
+    ∃ w, (step g s (.request 0 0 1)).2 = some w ∧ ¬ w.Current g s 0 := by
+  refine ⟨⟨0, 1, 0, [0, 0, 0, 0]⟩, by decide, by decide⟩
+
+/-- **counter-model (`cache` memoising on a lazy stack over pre-locked members)**: a member is no lock
+child of the stack, so unlock / set / lock on it leaves the stack's wrapper stale -/
+theorem by_members_memoising_is_stale :
+    let g := topoPreLocked.graphMemoAll
+    let hist := [Ev.request 0 0 1] ++ apiEvents g "unlock_set_lock" 1
+    let s := (run g St.init hist).1
+    ∃ w, (step g s (.request 0 0 1)).2 = some w ∧ ¬ w.Current g s 0 := by
+  refine ⟨⟨0, 1, 0, [0, 0, 0, 0, 0]⟩, by decide, by decide⟩
+
+-- … and neither variant passes the executable well-formedness test
+example : topoTree.graph.eraseSelfOnly.wfCheck = false := by decide
+example : topoPreLocked.graphMemoAll.wfCheck = false := by decide
+-- on the real graph the same histories return a fresh wrapper
+example : identityPattern (run topoPreLocked.graph St.init
+    ([.request 0 0 1, .request 0 0 1, .request 1 0 1] ++ apiEvents topoPreLocked.graph "unlock_set_lock" 1
+      ++ [.request 0 0 1, .request 1 0 1, .request 2 0 1, .request 2 0 1])).2 = [0, 1, 2, 3, 4, 5, 5] := by decide
+
+end MemoHist
 
 /-! ## 6b. lazily stacked tensordicts -/
 
